@@ -30,6 +30,8 @@ def expect_arp(q, cfg, f):
 
 
 def expect_icmp(q, cfg):
+    if cfg.deny and q.src in cfg.deny:
+        return None             # IP packets from a denied source are never answered (C02); ARP is not an IP packet
     if q.v == 4:
         if q.itype == 8 and q.icode == 0 and cfg.handles(q.dst):
             return ("echo", 0, q.irest)
@@ -141,10 +143,15 @@ def shard(ctx, budget_s):
     n = 0
     while time.time() < deadline or n == 0:
         # the behaviour must not depend on the log configuration: draw logger and verbosity too
-        cfg = gen.rnd_config(rng, deny=False, logger=rng.choice("nnncl"), level=rng.choice([0, 0, 1, 2, 3, 4, 5]))
+        cfg = gen.rnd_config(rng, deny=None if rng.random() < 0.5 else False, logger=rng.choice("nnncl"), level=rng.choice([0, 0, 1, 2, 3, 4, 5]))
+        deny4 = [a for a in (cfg.deny or []) if len(a) == 4]
+        deny6 = [a for a in (cfg.deny or []) if len(a) == 16]
         items = []
         for _ in range(60):
             e = gen.endp(rng, cfg, False, own_src=0.02)
+            if deny4 and rng.random() < 0.2:
+                # the deny list is about IP packets: an ARP request from a listed address is answered like any other
+                e = pkt.Endp(e.cmac, e.smac, rng.choice(deny4), e.sip, fuzz=rng)
             op = rng.choice([1, 1, 1, 2, 0, 3, 4, 5, 6, 7, 8, 9, 10, 0xFFFF, rng.getrandbits(16)])
             tpa = e.sip if rng.random() < 0.6 else gen.rnd_ip4(rng)
             dm = rng.choice([pkt.BCAST, cfg.mac])
@@ -156,6 +163,8 @@ def shard(ctx, budget_s):
                 items.append(items[-1])          # byte-identical retransmission
         for _ in range(60):
             e = gen.endp(rng, cfg, True, own_src=0.02)
+            if deny6 and rng.random() < 0.1:
+                e = pkt.Endp(e.cmac, e.smac, rng.choice(deny6), e.sip, fuzz=rng)       # denied source: silence
             target = e.sip if rng.random() < 0.5 else gen.rnd_ip6(rng)
             others = [a for a in (cfg.selfips or []) if len(a) == 16 and a != e.sip]
             if others and rng.random() < 0.3:
